@@ -46,7 +46,7 @@ pub(crate) enum Escape {
     /// Insert a newline character unless on a new line already
     UnescapedAtNewline,
 
-    /// Escape space characters (`' '`) and newlines (`'\n'`)
+    /// Escape space characters (`' '`), newlines (`'\n'`) and backslashes (`'\\'`)
     /// This escape is used for control sequence arguments
     Spaces,
 
@@ -96,6 +96,9 @@ where
                     if c == b' ' || c == b'\n' {
                         out.extend_from_slice(b"\\ ");
                     } else {
+                        if c == b'\\' {
+                            out.push(b'\\');
+                        }
                         out.push(c);
                     }
                 }
